@@ -2,7 +2,7 @@
 From Coq Require Import List NArith ZArith Bool.
 From SK Require Import lib.LGraph lib.Mono.
 From SK Require model.C06_Model model.C11_Model.
-From SK Require Import model.C03_Model model.C05_Model proof.C05_Proof proof.C05_Glue proof.C05_Pipe proof.C05_Prep proof.C05_Comp proof.C05_Main proof.C05_Order proof.C05_Sub proof.C05_Set proof.C05_Result proof.C05_AllStrat proof.C05_PrepOrder proof.C05_Final proof.C05_Default.
+From SK Require Import model.C03_Model model.C05_Model proof.C05_Proof proof.C05_Glue proof.C05_Pipe proof.C05_Prep proof.C05_Comp proof.C05_Main proof.C05_Order proof.C05_Sub proof.C05_Set proof.C05_Result proof.C05_AllStrat proof.C05_PrepOrder proof.C05_Final proof.C05_Default proof.C05_Rewrite proof.C05_Capstone.
 From SK Require Import lib.C06_Spec proof.C06_Comp.
 From SK Require proof.C11_Dedup.
 From Coq Require Import Permutation.
@@ -232,3 +232,49 @@ Proof.
   destruct (pipeline_default_set_invariant strat sg pi inv host host'' tpl tpl'' Hst Hs Hp A1 A2 A3 A4 B1 B2 B3 B4 Hh Ht) as (P1 & P2 & P3).
   split; [exact P1|]. split; [exact P2|]. intros S S''. exact (P3 (side_okb_c_ok _ _ S) (side_okb_c_ok _ _ S'')).
 Qed.
+
+Lemma thm_rewriting_monitor :
+  forall (host0 host : hostg) (tpl0 tpl : its) (pi sg : list (N * N)),
+    rewriting_okb host0 tpl0 (host, tpl, pi, sg) = true ->
+    inj (apply_map pi) /\ inj (apply_map sg) /\
+    same_graph (relabel (apply_map pi) host0) host /\ same_graph (relabel (apply_map sg) tpl0) tpl /\
+    simple_edgesb (gedges tpl0) = true /\ simple_edgesb (gedges tpl) = true.
+Proof. exact rewriting_okb_ok. Qed.
+
+Lemma thm_result_set_invariant_checked :
+  forall (strat : N), strat = 0%N \/ strat = 1%N \/ strat = 2%N ->
+  forall (sg pi : N -> N), inj sg -> inj pi ->
+  forall (host0 host : hostg) (p0 p : prepared),
+    side_okb_c host0 p0 = true -> side_okb_c host p = true ->
+    same_graph (relabel pi host0) host -> same_graph (relabel sg (p_rc p0)) (p_rc p) -> same_graph (relabel sg (p_pat p0)) (p_pat p) ->
+    (forall T, In T (glued_of strat host0 p0) -> exists T', In T' (glued_of strat host p) /\ obs_eq (relabel pi T) T') /\
+    (forall T', In T' (glued_of strat host p) -> exists T, In T (glued_of strat host0 p0) /\ obs_eq (relabel pi T) T').
+Proof. intros strat Hst sg pi Hs Hp host0 host p0 p. exact (glued_set_checked strat sg pi Hs Hp host0 host p0 p Hst). Qed.
+
+Lemma thm_pipeline_checked_implicit :
+  forall (strat : N), strat = 0%N \/ strat = 1%N \/ strat = 2%N ->
+  forall (inv : bool) (host0 host : hostg) (tpl0 tpl : its) (pi sg : list (N * N)) (p0 : prepared),
+    rewriting_okb host0 tpl0 (host, tpl, pi, sg) = true ->
+    prepare inv true tpl0 = Some p0 -> p_flag p0 = false -> side_okb_c host0 p0 = true ->
+    exists p, prepare inv true tpl = Some p /\ p_flag p = false /\
+      pipeline inv true false strat host0 tpl0 = Some (glued_of strat host0 p0) /\
+      pipeline inv true false strat host tpl = Some (glued_of strat host p) /\
+      (side_okb_c host p = true ->
+       (forall T, In T (glued_of strat host0 p0) -> exists T', In T' (glued_of strat host p) /\ obs_eq (relabel (apply_map pi) T) T') /\
+       (forall T', In T' (glued_of strat host p) -> exists T, In T (glued_of strat host0 p0) /\ obs_eq (relabel (apply_map pi) T) T')).
+Proof. intros strat Hst inv host0 host tpl0 tpl pi sg p0. exact (pipeline_checked_implicit strat inv host0 host tpl0 tpl pi sg p0 Hst). Qed.
+
+Lemma thm_pipeline_checked_default :
+  forall (strat : N), strat = 0%N \/ strat = 1%N \/ strat = 2%N ->
+  forall (inv : bool) (host0 host : hostg) (tpl0 tpl : its) (pi sg : list (N * N)),
+    rewriting_okb host0 tpl0 (host, tpl, pi, sg) = true ->
+    nodupb (node_ids tpl0) = true -> noHb tpl0 = true -> (forall k a, In (k, a) (gnodes tpl0) -> i_hp a = None \/ i_hp a = Some []) ->
+    nodupb (node_ids tpl) = true -> noHb tpl = true -> (forall k a, In (k, a) (gnodes tpl) -> i_hp a = None \/ i_hp a = Some []) ->
+    side_okb_c host0 (prep_default inv tpl0) = true -> side_okb_c host (prep_default inv tpl) = true ->
+    pipeline inv false true strat host0 tpl0 = Some (glued_of strat host0 (prep_default inv tpl0)) /\
+    pipeline inv false true strat host tpl = Some (glued_of strat host (prep_default inv tpl)) /\
+    (forall T, In T (glued_of strat host0 (prep_default inv tpl0)) ->
+       exists T', In T' (glued_of strat host (prep_default inv tpl)) /\ obs_eq (relabel (apply_map pi) T) T') /\
+    (forall T', In T' (glued_of strat host (prep_default inv tpl)) ->
+       exists T, In T (glued_of strat host0 (prep_default inv tpl0)) /\ obs_eq (relabel (apply_map pi) T) T').
+Proof. intros strat Hst inv host0 host tpl0 tpl pi sg. exact (pipeline_checked_default strat inv host0 host tpl0 tpl pi sg Hst). Qed.
